@@ -1309,6 +1309,9 @@ def build_operator_operand_fixup(capture_error_state):
                 return PYTHON_AST_OPERATORS[op](right_op)
             else:
                 return PYTHON_AST_OPERATORS[op](left_op, right_op)
+        except OverflowError:
+            capture_error_state(True, f'Values: {left_op} {op} {right_op}')
+            return NUM_ERROR
         except ZeroDivisionError:
             capture_error_state(True, f'Values: {left_op} {op} {right_op}')
             return DIV0
